@@ -6,4 +6,7 @@ import float_grid
 EXTRA = {
     # the float layer: Base/FloatGrid*.v, Base/FloatDue*.v, Generated/TablesTime.v (Props/C01Float.v)
     "C01": (("gen_tables_time.py",), (float_grid.check_float_grid,)),
+    # Props/C02Float.v, Props/C05Float.v: the note-off and action due tests generated from the source
+    "C02": (("gen_tables_time.py",), ()),
+    "C05": (("gen_tables_time.py",), ()),
 }
